@@ -52,7 +52,9 @@ def main():
             open(os.path.join(work, mc + ".cfg"), "w").write(
                 f"CONSTANTS\n Total = {chunks * 2}\n Avail = {avail}\n Ops <- const_Ops\nINIT Init\nNEXT Next\n"
                 "INVARIANTS RaceFree OutcomesOk NoDeadlock Bounded\nCHECK_DEADLOCK FALSE\n")
-            p = subprocess.run(["tlc", "-workers", "4", "-metadir", os.path.join(work, "states" + str(k)), mc + ".tla"], cwd=work, capture_output=True, text=True, timeout=600)
+            # TLC and SANY unpack their standard modules into java.io.tmpdir: keep that inside the scratch area
+            env = dict(os.environ, JAVA_TOOL_OPTIONS="-Djava.io.tmpdir=" + work)
+            p = subprocess.run(["tlc", "-workers", "4", "-metadir", os.path.join(work, "states" + str(k)), mc + ".tla"], cwd=work, env=env, capture_output=True, text=True, timeout=600)
             out = p.stdout + p.stderr
             m = re.search(r"(\d+) distinct states found", out)
             viol = ("Invariant" in out and "is violated" in out) or "Error:" in out
